@@ -1,3 +1,150 @@
-"""Best-effort search for a concrete failing input on the real code *after* the verifier has failed."""
+"""Concrete failing inputs on the REAL code, produced only *after* a verifier has already failed an obligation.
+ * from_kani(): decode a Kani concrete-playback vector list into named inputs and replay them through the driver
+   (which reaches the same code through rivia's public API) so that the divergence is shown on the real crate.
+ * search(): per-unit small-input enumeration against an executable reference (units/<unit>.witness.py), best effort.
+The decision is always the verifier's; nothing here can turn a pass into a fail or vice versa.
+"""
+import importlib.util
+import os
+import re
+import shutil
+import subprocess
+import tempfile
+
+HERE = os.path.dirname(os.path.abspath(__file__))
+VERIF = os.path.dirname(HERE)
+
+
+def hexs(s):
+    return (s.encode('utf-8') if isinstance(s, str) else bytes(s)).hex()
+
+
+def unhex(h):
+    return bytes.fromhex(h)
+
+
+class Driver:
+    """Builds /verif/driver against the tree under test in a scratch dir; run(lines) -> output lines."""
+
+    def __init__(self, repo):
+        self.repo = os.path.abspath(repo)
+        self.dir = tempfile.mkdtemp(prefix='rivia-driver-')
+        self.bin = None
+
+    def build(self):
+        d = self.dir
+        os.makedirs(os.path.join(d, 'src'), exist_ok=True)
+        shutil.copy(os.path.join(VERIF, 'driver', 'src', 'main.rs'), os.path.join(d, 'src', 'main.rs'))
+        open(os.path.join(d, 'Cargo.toml'), 'w').write(open(os.path.join(VERIF, 'driver', 'Cargo.toml.in')).read().replace('@REPO@', self.repo))
+        lock = os.path.join(self.repo, 'Cargo.lock')
+        env = dict(os.environ, CARGO_NET_OFFLINE='true', CARGO_TARGET_DIR=os.path.join(d, 'target'))
+        p = subprocess.run(['cargo', 'build', '--offline', '-q'], cwd=d, env=env, capture_output=True, text=True, timeout=900)
+        if p.returncode != 0:
+            raise RuntimeError('driver build failed: ' + p.stderr[-800:])
+        self.bin = os.path.join(d, 'target', 'debug', 'verif-driver')
+        return self
+
+    def run(self, lines, env_extra=None, timeout=600):
+        env = dict(os.environ)
+        if env_extra is not None:
+            env.update(env_extra)
+        p = subprocess.run([self.bin], input='\n'.join(lines) + '\n', capture_output=True, text=True, env=env, timeout=timeout)
+        return p.stdout.split('\n')[:len(lines)]
+
+    def close(self):
+        shutil.rmtree(self.dir, ignore_errors=True)
+
+
+def replay_cmd(line):
+    return "cd /verif && python3 vc/witness.py replay '%s'" % line.replace('\t', '\\t').replace("'", "'\\''")
+
+
+# ---- Kani counterexamples -------------------------------------------------------------------------------------
+def kani_values(cex_text):
+    vals = []
+    for m in re.finditer(r'vec!\[([0-9,\s]*)\]', cex_text.split('let concrete_vals')[1] if 'let concrete_vals' in cex_text else cex_text):
+        inner = m.group(1).strip()
+        if inner == '' and not vals:
+            continue
+        vals.append(bytes(int(x) for x in inner.split(',') if x.strip() != ''))
+    return vals
+
+
+def _u(b):
+    return int.from_bytes(b, 'little', signed=False)
+
+
+def _i(b):
+    return int.from_bytes(b, 'little', signed=True)
+
+
+def decode_memfs_file(kind, vals):
+    # any_data(): n: usize, a: [u8;4]   then pos: u64, ...
+    n = _u(vals[0]) % 5 if _u(vals[0]) <= 4 else 0
+    data = b''.join(vals[1:5])[:n]
+    pos = _u(vals[5])
+    if kind == 'seek':
+        k = _u(vals[6]) % 3
+        u, i = _u(vals[7]), _i(vals[8])
+        sk = ['start', 'current', 'end'][k]
+        off = u if k == 0 else i
+        return {'data': data.hex(), 'pos': pos, 'seek': '%s(%d)' % (sk, off)}, 'seek\t%s\t%d\t%s\t%d' % (data.hex(), pos, sk, off)
+    if kind == 'read':
+        nn = _u(vals[6])
+        return {'data': data.hex(), 'pos': pos, 'buf_len': nn}, 'read\t%s\t%d\t%d' % (data.hex(), pos, nn)
+    if kind == 'len':
+        return {'data': data.hex(), 'pos': pos, 'buf_len': 1}, 'read\t%s\t%d\t1' % (data.hex(), pos)
+    return None, None
+
+
+def from_kani(kr, repo):
+    """kr: a failed kani result with 'cex' text.  Returns a failing_input dict."""
+    doc = {'from': 'kani::' + kr['harness'], 'failed_checks': kr.get('failed_checks'), 'concrete_playback': kr['cex']}
+    try:
+        vals = kani_values(kr['cex'])
+        named, line = (None, None)
+        if kr.get('unit') == 'memfs_file' and kr.get('replay'):
+            named, line = decode_memfs_file(kr['replay'], vals)
+        if line:
+            doc['inputs'] = named
+            d = Driver(repo).build()
+            try:
+                out = d.run([line])[0]
+            finally:
+                d.close()
+            doc['real_code_result'] = out
+            doc['reproduced_on_real_code'] = out.startswith('DIFF') or out.startswith('PANIC')
+            doc['replay_cmd'] = replay_cmd(line)
+    except Exception as e:  # best effort
+        doc['replay_error'] = str(e)
+    return doc
+
+
+# ---- witness search -------------------------------------------------------------------------------------------
 def search(unit, ob, repo, seed):
-    return None
+    p = os.path.join(VERIF, 'units', unit + '.witness.py')
+    if not os.path.exists(p):
+        return None
+    spec = importlib.util.spec_from_file_location('w_' + unit, p)
+    mod = importlib.util.module_from_spec(spec)
+    spec.loader.exec_module(mod)
+    d = Driver(repo).build()
+    try:
+        r = mod.find(d, ob['fn'], seed)
+    finally:
+        d.close()
+    if r:
+        r['replay_cmd'] = replay_cmd(r['driver_line'])
+    return r
+
+
+if __name__ == '__main__':
+    import sys
+    if sys.argv[1] == 'replay':
+        d = Driver(os.environ.get('VERIF_REPO', '/repo')).build()
+        try:
+            out = d.run([sys.argv[2].replace('\\t', '\t')])[0]
+        finally:
+            d.close()
+        print(out)
+        sys.exit(1 if out.startswith(('DIFF', 'PANIC')) else 0)
